@@ -7,6 +7,7 @@ taken modulo the length; TLC's verdict, not this file, is what counts.
 """
 import random
 from .nano_ast import *
+from .gen_gx import GxCore, GxIdioms, GxProgram, GX_FEATURES
 
 BOUNDARY = [0, 1, -1, 2, -2, 7, -7, 255, 256, 2**31 - 1, 2**31, 2**32 - 1, 2**32 + 1, -2**31, 2**62, -2**62,
             2**63 - 1, -2**63, -2**63 + 1, 65535, 65536]
@@ -37,7 +38,7 @@ class Scope:
         return out
 
 
-class Gen:
+class Gen(GxCore, GxIdioms, GxProgram):
     def __init__(self, seed, features=None):
         self.r = random.Random(seed)
         self.n = 0
@@ -50,6 +51,7 @@ class Gen:
         self.fuel = 0
         self.impure_ok = True      # may the expression being generated call effectful functions / read mutable globals?
         self.mut_globals = set()
+        self.gx_init()              # feature flags of lib/gen_gx.py: no random draw unless one of them is on
 
     def fresh(self, p="v"):
         self.n += 1
@@ -78,12 +80,18 @@ class Gen:
     def expr(self, ty, sc, d):
         r = self.r
         vs = [v for v in sc.all() if v[1] == ty and (self.impure_ok or v[0] not in self.mut_globals)]
+        if self.gx and ty in self.gx_types:
+            return self.gx_expr(ty, sc, d)
         if ty.startswith("HashMap"):
             return V(r.choice(vs)[0])           # callers make sure a map of this type is in scope
         if d <= 0 or r.random() < 0.25:
             if vs and r.random() < 0.6:
                 return V(r.choice(vs)[0])
             return self.lit(ty, sc, d)
+        if self.gx and ty in ("int", "bool", "string") and r.random() < 0.2:
+            e = self.gx_scalar(ty, sc, d)
+            if e is not None:
+                return e
         if self.feat.get("maps") and ty in ("int", "bool", "string"):
             ms = [v for v in sc.all() if v[1] in (self.MII, self.MSI, self.MIS)]
             if ms and self.impure_ok and r.random() < 0.18:      # a map is mutable state: read it only where effects are allowed
@@ -195,6 +203,7 @@ class Gen:
         if ty == "array<int>": return ALit("int", self.multi(*[(lambda: self.expr("int", sc, d - 1)) for _ in range(r.randint(1, 4))]))
         if ty == "array<string>": return ALit("string", self.multi(*[(lambda: self.expr("string", sc, d - 1)) for _ in range(r.randint(1, 3))]))
         if ty == "(int, string)": return TLit(self.multi(lambda: self.expr("int", sc, d - 1), lambda: self.expr("string", sc, d - 1)))
+        if self.gx: return self.gx_lit(ty, sc, d)
         raise ValueError(ty)
 
     # ------------------------------------------------------------- statements
@@ -233,9 +242,13 @@ class Gen:
         r = self.r
         if self.feat.get("maps") and r.random() < 0.22:
             return self.map_stmt(sc)
+        if self.gx and r.random() < self.gx_rate:
+            s = self.gx_stmt(sc, depth, inloop, ret)
+            if s:
+                return s
         c = r.random()
         if c < 0.22:
-            ty = r.choice(self.TYPES)
+            ty = r.choice(self.TYPES if not self.gx else self.TYPES + sorted(t for t in self.gx_types if not t.startswith("List<")))
             shadow = [v for v in sc.all() if v[1] == ty]
             name = r.choice(shadow)[0] if shadow and r.random() < 0.25 and sc.parent is not None and \
                 all(v[0] != shadow[0][0] for v in sc.vars) else self.fresh()
@@ -333,22 +346,27 @@ class Gen:
             gl.append(("G1", "int", False, I(self.small()))); gsc.vars.append(("G1", "int", False))
         if r.random() < 0.6:
             gl.append(("gm", "int", True, I(r.randint(0, 5)))); gsc.vars.append(("gm", "int", True)); self.mut_globals.add("gm")
+        if self.gx:
+            self.gx_program_pre(fns, gl, gsc)
         if self.feat.get("fnvals"):
             fns.append(Func("ap", [("f", self.FII), ("x", "int")], "int", [Println(V("x")), Let("r", "int", Call("f", V("x"))), Println(V("r")), Ret(V("r"))]))
-        for k in range(r.randint(1, 3) + (1 if self.feat.get("fnvals") else 0)):
+        wide = bool(self.feat.get("wide"))
+        self.gx_wide_fns = []
+        for k in range(r.randint(1, 3) + (1 if self.feat.get("fnvals") else 0) + (r.randint(16, 20) if wide else 0)):
             name = "f%d" % k
-            ptys = [r.choice(["int", "int", "bool", "string", "Point", "array<int>", "Shape"] + ([self.MII, self.MSI] if self.feat.get("maps") else []))
-                    for _ in range(r.randint(0, 3))]
+            ptys = [r.choice(["int", "int", "bool", "string", "Point", "array<int>", "Shape"] + ([self.MII, self.MSI] if self.feat.get("maps") else [])
+                         + (self.gx_param_types() if self.gx else []))
+                    for _ in range(r.randint(6, 10) if wide and k % 3 == 0 else r.randint(0, 3))]
             if self.feat.get("fnvals") and k == 0:
                 ptys = ["int"]                       # at least one function of the shape fn(int) -> int
-            ret = r.choice(["int", "int", "bool", "string", "Point"])
+            ret = r.choice(["int", "int", "bool", "string", "Point"] + (self.gx_ret_types() if self.gx else []))
             if self.feat.get("fnvals") and k == 0:
                 ret = "int"
             sc = Scope(gsc)
             params = []
             for t in ptys:
                 p = self.fresh("p"); params.append((p, t)); sc.vars.append((p, t, False))
-            body = self.stmts(sc, r.randint(1, 4), 2, False, ret)
+            body = self.stmts(sc, r.randint(1, 4) if not (wide and k > 3) else r.randint(1, 2), 2 if not (wide and k > 3) else 1, False, ret)
             if r.random() < 0.25 and ret == "int" and "int" in ptys:        # bounded recursion on the first int parameter
                 pn = [p for p, t in params if t == "int"][0]
                 args = [Bin("-", V(p), I(1)) if p == pn else V(p) for p, t in params]
@@ -359,13 +377,21 @@ class Gen:
                 body.append(Ret(self.expr(ret, sc, 2)))
             fns.append(Func(name, params, ret, body))
             self.funcs.append((name, ptys, ret))
+            if wide and len(ptys) >= 6:
+                self.gx_wide_fns.append((name, ptys, ret))
         sc = Scope(gsc)
         if self.feat.get("fnvals"):
             fns.append(Func("ap_last", [("f", self.FII), ("x", "int")], "int", [Let("r", "int", Call("f", V("x"))), Println(V("r")), Ret(Bin("+", V("r"), I(1)))]))
             sc.vars.append(("fv0", self.FII, False))
-        body = self.stmts(sc, r.randint(4, 9), 3, False, "int")
+        pre = []
+        if wide:          # 40+ locals alive in main
+            pre = self.ix_wide_locals(sc, 3, False, "int") + self.ix_wide_locals(sc, 3, False, "int") + self.ix_wide_locals(sc, 3, False, "int")
+        body = pre + self.stmts(sc, r.randint(4, 9), 3, False, "int")
         if self.feat.get("fnvals"):
             body = [Let("fv0", self.FII, V("f0"))] + body
         body.append(Ret(I(r.choice([0, 0, 1, 7, 42, 255, 256, 300]))))
         fns.append(Func("main", [], "int", body))
-        return Program(fns, structs=self.structs, enums=self.enums, unions=self.unions, globals_=gl)
+        prog = Program(fns, structs=self.structs, enums=self.enums, unions=self.unions, globals_=gl)
+        if self.gx and self.feat.get("unions2"):
+            prog["late_structs"] = ["Holder"]
+        return prog
